@@ -16,7 +16,7 @@ func loadBases() {
 	if bases != nil {
 		return
 	}
-	for _, f := range corpus.RepoTestdata() {
+	for _, f := range corpus.Fixed() {
 		if len(f.Text) <= 24<<10 {
 			bases = append(bases, f.Text)
 		}
